@@ -169,6 +169,45 @@ func taskBody(env *taskEnv, t *TaskScn) func() string {
 			blocks, refs := commonmark.Parse(input())
 			return snapAll(blocks) + "REFS\n" + snapRefs(refs)
 		}
+	case "parse-keep-inner":
+		// a caller that keeps only INNER nodes of what it parsed (the children
+		// of the root blocks and the Source they index into) and drops the
+		// root blocks themselves; a collection - finalizers included - runs at
+		// that instant, the other tasks get their turns, and only then are the
+		// kept subtrees read.  Whatever is reachable from a kept node must stay
+		// what it was (storage a change recycles once "the document" - its
+		// roots - is unreachable is taken over by the other tasks' parses).
+		return func() string {
+			type keptNode struct {
+				n   commonmark.Node
+				src []byte
+			}
+			var keep []keptNode
+			func() {
+				blocks, _ := commonmark.Parse(input())
+				for _, rb := range blocks {
+					for i := 0; i < rb.ChildCount(); i++ {
+						keep = append(keep, keptNode{rb.Child(i), rb.Source})
+					}
+				}
+			}()
+			simrt.Yield(siteGC)
+			collect()
+			for i := 0; i < 12; i++ {
+				simrt.Yield(siteGC)
+			}
+			var sb strings.Builder
+			for _, k := range keep {
+				src := k.src
+				commonmark.Walk(k.n, &commonmark.WalkOptions{Pre: func(c *commonmark.Cursor) bool {
+					simrt.Yield(sitePre)
+					inspectNode(&sb, src, c.Node())
+					return true
+				}})
+				sb.WriteByte('/')
+			}
+			return sb.String()
+		}
 	case "parse-render":
 		return func() string {
 			blocks, refs := commonmark.Parse(input())
